@@ -217,26 +217,11 @@ func ruleConvPair(c *Ctx, rule string) {
 				}
 				return true
 			})
-			if !isWriterMethod {
-				continue
-			}
-			// writer side: Fprintf arguments
-			ast.Inspect(fd.Body, func(n ast.Node) bool {
-				call, ok := n.(*ast.CallExpr)
-				if !ok {
-					return true
-				}
-				fo, ok := calleeOf(p, call).(*types.Func)
-				if !ok || fo.Pkg() == nil || fo.Pkg().Path() != "fmt" {
-					return true
-				}
-				for _, arg := range call.Args {
-					cp.checkFormatArg(fname, arg)
-				}
-				return true
-			})
+			_ = isWriterMethod
 		}
 	}
+	// writer side: flow of coordinate reads into fmt.Fprint* arguments (SSA, through helpers)
+	ruleConvFlow(c, rule, cp)
 }
 
 // coordKind: does e read a start (1) or end (2) coordinate?
